@@ -164,6 +164,15 @@ func (in *Interp) schedule(from *G) {
 			break
 		}
 	}
+	if next == nil && from != nil && from.yielding {
+		// a yielding goroutine lets earlier yielders continue first
+		for _, g := range in.gs {
+			if g != from && g.yielding && g.runnable() {
+				next = g
+				break
+			}
+		}
+	}
 	if next == nil && from != nil && !from.done && from.runnable() {
 		// nobody else can run: continue ourselves
 		in.cur = from
